@@ -25,6 +25,14 @@ GOENV = dict(os.environ, GOFLAGS="-mod=mod", GOPROXY="off", GOSUMDB="off", GOTOO
 
 FORBIDDEN = re.compile(r"\b(Admitted|admit|Axiom|Axioms|Parameter|Parameters|Conjecture|Hypothesis|Variable|Variables|Hypotheses)\b|Unset Guard|bypass_check|Admit Obligations|type-in-type|impredicative-set|native_compute")
 
+WITNESS = {
+    "C01": ["Witness/NV_C01.v"], "C05": ["Witness/NV_C01.v"], "C08": ["Witness/NV_C01.v"], "C03": ["Witness/NV_C03.v"],
+    "C04": ["Witness/NV_C04.v"], "C06": ["Witness/NV_C06.v"], "C07": ["Witness/NV_C07C02.v"], "C02": ["Witness/NV_C07C02.v"],
+    "C11": ["Witness/NV_C11.v"], "C12": ["Witness/NV_C12.v"], "C13": ["Witness/NV_C13.v"], "C14": ["Witness/NV_C14C10.v"],
+    "C10": ["Witness/NV_C14C10.v"], "C15": ["Witness/NV_C15.v"], "C16": ["Witness/NV_C16.v"], "C17": ["Witness/NV_C17.v"],
+    "C19": ["Witness/NV_C19.v"], "C20": ["Witness/NV_C20.v"],
+}
+
 TRUSTED_BASE = [
     "Coq 8.16.1 kernel (coqc, vm_compute; no native_compute); coqchk in the thorough tier",
     "tools/go2v (Go->Gallina translator for value.go operators, constant/opcode/Lbp/priority/peephole tables)",
@@ -69,7 +77,7 @@ def verif_sources():
 
 def coq_files():
     files = []
-    for d in ("GoSpec", "Gen", "Model", "Proofs", "Props"):
+    for d in ("GoSpec", "Gen", "Model", "Proofs", "Props", "Witness"):
         files += sorted(glob.glob(os.path.join(COQ, d, "*.v")))
     return [os.path.relpath(f, COQ) for f in files]
 
@@ -371,6 +379,16 @@ def standard_proof_stage(chk, props_files, deps_note=""):
         chk.coverage["coqchk"] = {"exit": rc, "summary": " ".join(summary.split())[:1500]}
         if rc != 0:
             chk.add_broken("coqchk rejects " + " ".join(mods), out[-2000:])
+    # non-vacuity witnesses (coq/Witness/NV_*.v): every premise set of the property theorems is instantiated by a
+    # concrete non-trivial instance and the theorem applied to it; compiled by the full make, must be fresh
+    wit = [w for w in WITNESS.get(chk.pid, []) if os.path.exists(os.path.join(COQ, w))]
+    chk.coverage["nonvacuity_witness_files"] = wit
+    for w in wit:
+        if w[:-2] + ".vo" not in st.get("vo", []):
+            tail = ""
+            if "coq" in st.get("errors", {}):
+                tail = "\n--- make log tail ---\n" + st["errors"]["coq"][-2500:]
+            chk.add_broken("non-vacuity witness file does not check: " + w, "the premises of the property theorems are no longer shown satisfiable by the recorded instances" + tail)
     for e in pr["errors"]:
         detail = e
         if "coq" in st.get("errors", {}):
